@@ -533,7 +533,8 @@ func init() {
 	register(&vf.Check{
 		ID:        "C19",
 		Technique: "runtime monitor over a scripted in-memory transport: item sequences compared with the generated payload list under every cut offset / random cuts / byte-at-a-time / would-block mid-item, transport bytes and destination buffer inspected after every write, Cap() watched on hostile prefixes; plain build",
-		Rule: "cases = read direction (1-12 payloads of sizes {0,1,3,4,5,255,600,4096,65536,random}, wire cut at EVERY offset when <=300 bytes, else random cuts incl. inside a length prefix, plus coalesced and byte-at-a-time; blocking and asynchronous, all-at-once and incremental feeding), write direction (WriteNext/AsyncWriteNext over transports accepting 1/3/7/64/all bytes per write, inline/deferred, transport temporarily not writable), hostile input (declared length limit+1, 2^31, 2^32-1, random bytes; after 0-2 valid items); " +
+		Rule: "a third of the read runs write every item back with WriteNext exactly as it was handed over; one item in about a hundred has 150 KiB - 1 MiB; " +
+			"cases = read direction (1-12 payloads of sizes {0,1,3,4,5,255,600,4096,65536,random}, wire cut at EVERY offset when <=300 bytes, else random cuts incl. inside a length prefix, plus coalesced and byte-at-a-time; blocking and asynchronous, all-at-once and incremental feeding), write direction (WriteNext/AsyncWriteNext over transports accepting 1/3/7/64/all bytes per write, inline/deferred, transport temporarily not writable), hostile input (declared length limit+1, 2^31, 2^32-1, random bytes; after 0-2 valid items); " +
 			"every case is non-trivial; distinct = (direction, API, split class or write behaviour, size classes)",
 		Assumptions: []string{
 			"declared lengths in (64 KiB, limit=1 GiB] are not fed (a conforming implementation must allocate for them): only <= 64 KiB or > limit",
